@@ -409,7 +409,9 @@ func (*Ufs) Create(req *SrvReq) {
 		file, e = os.OpenFile(path, omode2uflags(tc.Mode)|os.O_CREATE, os.FileMode(mode))
 	}
 
-	if file == nil && e == nil {
+	// a new symbolic link is not opened: that would follow it, and fail
+	// after the link has been made if its target does not exist
+	if file == nil && e == nil && tc.Perm&DMSYMLINK == 0 {
 		file, e = os.OpenFile(path, omode2uflags(tc.Mode), 0)
 	}
 
